@@ -44,6 +44,7 @@ static mut WINDOW_OK: bool = true;
 static mut MEMBER_OK: bool = true;
 static mut KILLERS_LEN: usize = usize::MAX; // shortest killer table handed to a node
 static mut NODE_RD_OK: bool = true;
+static mut GEN_CALLED: bool = false;
 
 fn node_id() -> usize {
     unsafe {
@@ -95,6 +96,9 @@ fn white_at_depth() -> bool {
 // ---------------------------------------------------------------- stubs for Game
 
 pub fn stub_get_moves(_game: &mut Game, moves: &mut ArrayVec<Move, 256>, _verify: bool) {
+    unsafe {
+        GEN_CALLED = true;
+    }
     moves.clear();
     let n = node_id();
     unsafe {
@@ -121,6 +125,13 @@ pub fn stub_push(_game: &mut Game, m: Move) {
         }
         DEPTH += 1;
     }
+}
+
+pub fn stub_push_pv(game: &mut Game, m: Move) {
+    unsafe {
+        PV_PUSHES += 1;
+    }
+    stub_push(game, m)
 }
 
 pub fn stub_pop(_game: &mut Game, m: Move) {
@@ -633,6 +644,28 @@ s_instance!(c09_node_k4_killer1, node_body, 4, 1, false);
 s_instance!(c09_node_witness, node_body, 4, B, true);
 s_instance!(c10_no_moves_node, no_moves_body, 0);
 
+macro_rules! sn_instance {
+    ($name:ident, $body:ident) => {
+        #[cfg_attr(kani, kani::proof)]
+        #[cfg_attr(kani, kani::unwind(9))]
+        #[cfg_attr(kani, kani::stub(crate::chess::Game::get_moves, stub_get_moves))]
+        #[cfg_attr(kani, kani::stub(crate::chess::Game::push, stub_push))]
+        #[cfg_attr(kani, kani::stub(crate::chess::Game::pop, stub_pop))]
+        #[cfg_attr(kani, kani::stub(crate::chess::Game::hash, stub_hash))]
+        #[cfg_attr(kani, kani::stub(crate::chess::Game::score, stub_score))]
+        #[cfg_attr(kani, kani::stub(crate::chess::Game::player, stub_player))]
+        #[cfg_attr(kani, kani::stub(crate::chess::Game::king_exists, stub_king_exists))]
+        #[cfg_attr(kani, kani::stub(crate::chess::Game::is_targeted, stub_is_targeted))]
+        #[cfg_attr(kani, kani::stub(crate::search::get_best_move_score_depth_1, stub_depth_1))]
+        #[cfg_attr(kani, kani::stub(crate::search::quiescence_search, stub_quiescence))]
+        pub fn $name() {
+            $body()
+        }
+    };
+}
+
+sn_instance!(c07_node_stopped, stopped_node_body);
+
 d1_instance!(c09_depth1_k1, depth1_body, 1, false);
 d1_instance!(c09_depth1_k2, depth1_body, 2, false);
 d1_instance!(c09_depth1_k3, depth1_body, 3, false);
@@ -656,6 +689,7 @@ q_instance!(c10_no_moves_quiescence, no_moves_body, 1);
 pub const REP_NONE: u8 = 0; // no repetition pattern in the move record
 pub const REP_IN_LIST: u8 = 1; // the move that would repeat is root move 1
 pub const REP_NOT_IN_LIST: u8 = 2; // pattern present, but the repeating move is not a root move
+pub const REP_MOVE_0: u8 = 3; // the move that would repeat is root move 0
 
 pub const ENTRY_NONE: usize = 99; // no table entry for the root
 pub const ENTRY_PV_NONE: usize = 98; // an entry without a move (only legal for a root without moves)
@@ -680,7 +714,13 @@ pub fn entry_body(k: usize, rep: u8, entry_pv: usize, witness: bool) {
     let mut game = dummy_game();
     if rep != REP_NONE {
         let a = abstract_move(4, true, true);
-        let r = if rep == REP_IN_LIST { abstract_move(1, false, true) } else { abstract_move(3, true, false) };
+        let r = if rep == REP_IN_LIST {
+            abstract_move(1, false, true)
+        } else if rep == REP_MOVE_0 {
+            abstract_move(0, false, true)
+        } else {
+            abstract_move(3, true, false)
+        };
         let x = abstract_move(2, true, false);
         game.verif_set_move_stack(vec![a, r, x, x, a]);
     }
@@ -725,7 +765,13 @@ pub fn entry_body(k: usize, rep: u8, entry_pv: usize, witness: bool) {
             } else {
                 assert!(!only, "[C06] several replies reported as a single reply");
                 // the moves actually considered: all root moves except the one that would repeat
-                let skip = if rep == REP_IN_LIST && k > 1 { 1 } else { B };
+                let skip = if rep == REP_IN_LIST && k > 1 {
+                    1
+                } else if rep == REP_MOVE_0 {
+                    0
+                } else {
+                    B
+                };
                 let mut best = i16::MIN + 1;
                 let mut any_move = false;
                 let mut i = 0;
@@ -802,7 +848,77 @@ e_instance!(c06_entry_k4_rep, 4, REP_IN_LIST, ENTRY_NONE, false);
 e_instance!(c06_entry_k4_rep_cached1, 4, REP_IN_LIST, 1, false);
 e_instance!(c06_entry_k4_rep_other, 4, REP_NOT_IN_LIST, 2, false);
 e_instance!(c06_entry_k5, 5, REP_NONE, ENTRY_NONE, false);
+e_instance!(c06_entry_k1_rep0, 1, REP_MOVE_0, ENTRY_NONE, false);
 e_instance!(c06_entry_witness, 4, REP_NONE, 3, true);
+
+/// C08, cheap: the root hands its killer table to the first child; the stub reports "stopped" at
+/// once, so the root returns before it touches the table -- only the length of the killer table
+/// (vs. the requested depth, any 1..255) is looked at.
+pub fn killers_body(k: usize) {
+    reset();
+    unsafe {
+        NM[0] = k;
+        ABORT_AT = 0;
+    }
+    let game = dummy_game();
+    let mut table: TranspositionTable = HashMap::with_capacity_and_hasher(8, BuildNoHashHasher::default());
+    let flag = AtomicBool::new(true);
+    let depth: u8 = kani::any();
+    kani::assume(depth >= 1);
+    let mut history = [0u16; 64 * 12];
+    let result = crate::search::get_best_move_entry(game, &flag, depth, &mut table, &mut history);
+    unsafe {
+        assert!(result.is_none(), "[C07] the root returns a result although its first child reported the stop");
+        assert!(CALLS == 1 && CALLS_AFTER_ABORT == 0, "[C07] the root keeps expanding children after the stop was reported");
+        assert!(KILLERS_LEN as u64 + 2 > depth as u64, "[C08] the per-ply killer table is shorter than the requested depth (deep searches crash)");
+        assert!(NODE_RD_OK, "[C10] the root's children are not searched at distance 1 (mate distances would be wrong)");
+    }
+    std::mem::forget(table);
+}
+
+macro_rules! e2_instance {
+    ($name:ident, $body:ident, $($arg:expr),*) => {
+        #[cfg_attr(kani, kani::proof)]
+        #[cfg_attr(kani, kani::unwind(9))]
+        #[cfg_attr(kani, kani::stub(crate::chess::Game::get_moves, stub_get_moves))]
+        #[cfg_attr(kani, kani::stub(crate::chess::Game::push, stub_push))]
+        #[cfg_attr(kani, kani::stub(crate::chess::Game::pop, stub_pop))]
+        #[cfg_attr(kani, kani::stub(crate::chess::Game::hash, stub_hash))]
+        #[cfg_attr(kani, kani::stub(crate::search::get_best_move_score, stub_node))]
+        pub fn $name() {
+            $body($($arg),*)
+        }
+    };
+}
+
+e2_instance!(c08_entry_killers_k2, killers_body, 2);
+e2_instance!(c08_entry_killers_k4, killers_body, 4);
+
+/// C07: the stop flag is polled at EVERY node entry, whatever the remaining depth: a node
+/// entered after the stop reports "stopped" without generating moves, searching or storing.
+pub fn stopped_node_body() {
+    reset();
+    unsafe {
+        NM[0] = 3;
+    }
+    let mut game = dummy_game();
+    let mut table: TranspositionTable = HashMap::with_capacity_and_hasher(8, BuildNoHashHasher::default());
+    let flag = AtomicBool::new(false);
+    let remaining: u8 = kani::any();
+    kani::assume(remaining <= 3);
+    let rd: u8 = kani::any();
+    kani::assume(rd < 30);
+    let (alpha, beta) = any_window();
+    let mut killers: [Option<Move>; 256] = [None; 256];
+    let mut history = [0u16; 64 * 12];
+    let r = sh::get_best_move_score(&mut game, &mut table, &flag, remaining, rd, alpha, beta, &mut killers, &mut history);
+    unsafe {
+        assert!(r.is_none(), "[C07] a node entered after the stop still returns a score");
+        assert!(CALLS == 0 && DEPTH == 0 && !GEN_CALLED, "[C07] a node entered after the stop still generates or searches moves");
+    }
+    std::mem::forget(table);
+    std::mem::forget(game);
+}
 
 // ---------------------------------------------------------------- driver: get_best_move_until_stop
 
@@ -816,12 +932,14 @@ static mut E_STOP_SEEN: bool = false; // a completed iteration already told the 
 static mut E_CALLED_AFTER_STOP: bool = false;
 static mut E_DEPTH_PREV: u8 = 0;
 static mut E_DEPTH_OK: bool = true;
+static mut E_STORE: bool = false; // the root stub also stores its result in the table, as the real root does
+static mut PV_PUSHES: usize = 0;
 
 pub fn stub_entry(
     game: Game,
     _flag: &AtomicBool,
     depth: u8,
-    _table: &mut TranspositionTable,
+    table: &mut TranspositionTable,
     _history: &mut [u16; 64 * 12],
 ) -> Option<(Option<Move>, Score, bool)> {
     std::mem::forget(game);
@@ -855,6 +973,9 @@ pub fn stub_entry(
             kani::assume(score == i16::MIN + 1);
         }
         E_LAST = mv;
+        if E_STORE {
+            table.insert(1000, sh::entry(score, mv, depth, sh::EXACT));
+        }
         if only || score > i16::MAX - 1000 || score < i16::MIN + 1000 || depth == E_LIMIT {
             E_STOP_SEEN = true;
         }
@@ -868,6 +989,18 @@ pub const NO_LIMIT: u8 = 0;
 /// completed iterations (any score, any root move) or "stopped" from an arbitrary call on.
 /// `limit`: depth limit (NO_LIMIT = none); the table may hold an exact root entry of any depth
 /// left by earlier searches, and entries for the positions after it (for the printed line).
+/// C18: the root stub stores its result like the real root; the driver then reconstructs the
+/// line by table walk + push.  One iteration (limit 1), k root moves.
+pub fn driver_pv_body(k: usize) {
+    unsafe {
+        E_STORE = true;
+    }
+    driver_body(k, 1, 0, false);
+    unsafe {
+        assert!(E_ABORT_AT == 0 || PV_PUSHES >= 1 || k == 0, "[C18] the printed line does not start with the move just found");
+    }
+}
+
 pub fn driver_body(k: usize, limit: u8, root_entry_depth: u8, witness: bool) {
     reset();
     let max_depth = if limit == NO_LIMIT { None } else { Some(limit) };
@@ -954,3 +1087,21 @@ dr_instance!(c08_driver_unlimited_cached254, 3, NO_LIMIT, 254, false);
 dr_instance!(c06_driver_no_moves, 0, 2, 0, false);
 dr_instance!(c06_driver_single_reply, 1, 3, 0, false);
 dr_instance!(c08_driver_witness, 3, 3, 0, true);
+
+macro_rules! drp_instance {
+    ($name:ident, $k:expr) => {
+        #[cfg_attr(kani, kani::proof)]
+        #[cfg_attr(kani, kani::unwind(9))]
+        #[cfg_attr(kani, kani::stub(crate::chess::Game::get_moves, stub_get_moves))]
+        #[cfg_attr(kani, kani::stub(crate::chess::Game::push, stub_push_pv))]
+        #[cfg_attr(kani, kani::stub(crate::chess::Game::pop, stub_pop))]
+        #[cfg_attr(kani, kani::stub(crate::chess::Game::hash, stub_hash))]
+        #[cfg_attr(kani, kani::stub(crate::chess::move_struct::Move::uci_notation, stub_uci_notation))]
+        #[cfg_attr(kani, kani::stub(crate::search::get_best_move_entry, stub_entry))]
+        pub fn $name() {
+            driver_pv_body($k)
+        }
+    };
+}
+
+drp_instance!(c18_driver_pv_k3, 3);
